@@ -317,7 +317,8 @@ def r6_shared(ctx):
     c11.r2_padding(Relabel(ctx, 'C07.R2'), docs, stride)
     c12.r4_reauth(Relabel(ctx, 'C07.R3'))
     # the CLI turns --clone into a shared key (data of the original key is reused)
-    mn = ctx.corpus.module('main').functions.get('_cmd_handler')
+    # (the function of __main__ that calls Repository.add_key - the command handler itself or a per-action function)
+    mn = next((f for f in ctx.corpus.module('main').all_functions if any((dotted(c.func) or '').endswith('.add_key') for c in calls_in(f.node))), None)
     ok = False
     if mn is not None:
         for c in calls_in(mn.node):
